@@ -14,7 +14,29 @@ def run(ctx):
     ctx.build(race=True)
     total_runs, total_events, races_total, samples = 0, 0, 0, []
     distinct = set()
-    for family, n in (("markupy", 50), ("mathy", 40), ("flow", 60), ("cmds", 40), ("expr", 30)):
+    # seeded runners full of random draws (outside the runner specification: judged by alone == concurrent only)
+    for g in ((2, 4, 8, 16) if thorough else (4, 16)):
+        dpath = ctx.path("rngdiffs_%d.ndjson" % g)
+        p = ctx.harness(["rng", "concurrent", "--g", g, "--rounds", 30 if thorough else 4, "--out", dpath], race=True, check=False, timeout=1500,
+                        env={"GORACE": "halt_on_error=0 exitcode=0", "VERIF_SEED": str(ctx.seed * 100 + g)})
+        if p.returncode != 0 and "fatal error: concurrent map" not in p.stderr:
+            raise vlib.MachineryError("rng concurrent driver failed rc=%d: %s" % (p.returncode, p.stderr[-1500:]))
+        races = len(re.findall(r"WARNING: DATA RACE|fatal error: concurrent map", p.stderr))
+        races_total += races
+        if races:
+            first = p.stderr[min(i for i in (p.stderr.find("WARNING: DATA RACE"), p.stderr.find("fatal error: concurrent map")) if i >= 0):][:3000]
+            ctx.violation({"kind": "race", "family": "rng", "goroutines": g, "report": first},
+                          "the race detector / Go runtime reported %d data race(s) with %d goroutines creating and driving their own seeded runners:\n%s"
+                          % (races, g, first[:1500]), signature="concurrent:data-race")
+        if p.returncode == 0:
+            rs = json.loads(p.stdout.strip().splitlines()[-1])
+            total_runs += rs["runs"]
+            for d in vlib.read_ndjson(dpath)[:3]:
+                ctx.violation({"kind": "rng-solo-diff", "diff": d},
+                              "seeded runner %d of %d concurrent ones (seed %r) differs from the same runner driven alone"
+                              % (d["goroutine"], d["goroutines"], d["case"]["seed"]), signature="concurrent:seeded-differs-from-alone")
+            ctx.cover(seeded_runs_with_draws=rs["runs"])
+    for family, n in (("markupy", 50), ("mathy", 40), ("flow", 60), ("cmds", 40), ("expr", 30), ("flowbig", 30)):
         cases_path = cc.gen_cases(ctx, family, n, "cases_%s.ndjson" % family)
         cases, _ = cc.load_cases(cases_path)
         for g in ((2, 4, 8, 16) if thorough else (4, 16)):
@@ -24,15 +46,18 @@ def run(ctx):
             p = ctx.harness(["core", "concurrent", "--cases", cases_path, "--cases-out", all_cases, "--out", trace, "--diffs", diffs, "--g", g,
                              "--rounds", 40 if thorough else 4], race=True, check=False, timeout=1500,
                             env={"GORACE": "halt_on_error=0 exitcode=0", "VERIF_SEED": str(ctx.seed * 100 + g)})
-            if p.returncode != 0:
+            fatal = "fatal error: concurrent map" in p.stderr
+            if p.returncode != 0 and not fatal:
                 raise vlib.MachineryError("concurrent driver failed rc=%d: %s" % (p.returncode, p.stderr[-1500:]))
-            races = len(re.findall(r"WARNING: DATA RACE", p.stderr))
+            races = len(re.findall(r"WARNING: DATA RACE|fatal error: concurrent map", p.stderr))
             races_total += races
             if races:
-                first = p.stderr[p.stderr.index("WARNING: DATA RACE"):][:3000]
+                first = p.stderr[min(i for i in (p.stderr.find("WARNING: DATA RACE"), p.stderr.find("fatal error: concurrent map")) if i >= 0):][:3000]
                 ctx.violation({"kind": "race", "family": family, "goroutines": g, "report": first},
                               "the race detector reported %d data race(s) with %d goroutines creating and driving their own runners:\n%s"
                               % (races, g, first[:1500]), signature="concurrent:data-race")
+            if fatal:
+                continue        # the Go runtime killed the driver (reported above): nothing else to read from this run
             stats = json.loads(p.stdout.strip().splitlines()[-1])
             for d in vlib.read_ndjson(diffs):
                 ctx.violation({"kind": "solo-diff", "diff": d},
